@@ -347,7 +347,8 @@ var ExprThemes = map[string][]string{
 	"pathtypes": {
 		"setpath(.p; \"v\")", "getpath(.p)", "delpaths([.p])", ".a[1] = \"v\"", ".a.\"1\" = \"v\"", ".a[\"1\"] = \"v\"", "setpath([\"a\", 1]; \"v\")", "setpath([\"a\", \"1\"]; \"v\")", ".p as $p | setpath($p; 1)", "[paths]", "path(..)", ".k.sub", ".\"k sub\" = 2", "setpath([\"k sub\"]; 3)", "setpath([\"k\", \"sub\"]; 3)",
 	},
-	"goccy": {"."},
+	"goccy":      {"."},
+	"loadshared": {"."},
 	"datetime": {
 		".t | tz(\"UTC\")", ".t | tz(\"Australia/Sydney\")", ".t | tz(\"America/New_York\")", ".t | tz(\"Europe/Berlin\") | format_datetime(\"2006-01-02 15:04\")", ".t += \"3h\"", ".t -= \"30m\"", ".t | format_datetime(\"Monday\")", ".t | to_unix", "1700000000 | from_unix", ".t | tz(\"Asia/Tokyo\")",
 		"with_dtf(\"2006-01-02T15:04:05Z\"; .t | format_datetime(\"15:04\"))", ".t | tz(\"Africa/Cairo\")", ".t | tz(\"Pacific/Auckland\")",
@@ -361,4 +362,4 @@ var ExprThemes = map[string][]string{
 	},
 }
 
-var ExprThemeNames = []string{"assignops", "regex", "sort", "encode", "variables", "literals", "snippet", "datetime", "pathtypes", "goccy"}
+var ExprThemeNames = []string{"assignops", "regex", "sort", "encode", "variables", "literals", "snippet", "datetime", "pathtypes", "goccy", "loadshared"}
